@@ -395,7 +395,8 @@ def sumproduct(*args):
         for x in flatten(arg)) for arg in args))
 
     # return the sum product
-    return np.sum(np.prod(values, axis=0))
+    result = np.sum(np.prod(values, axis=0))
+    return result.item() if isinstance(result, np.generic) else result
 
 
 @excel_math_func
